@@ -29,7 +29,7 @@ func genInjectMode(r *rng, out *bufio.Writer, nprog int, maxK int, irq bool) {
 		base := uint16(0x0100 + 0x10*r.n(16))
 		v.W[12] = base
 		v.W[8] = 0x2000 | uint16(r.u8()) // I = 0x20
-		mode := r.n(3) // IM 0, IM 1 or IM 2
+		mode := r.n(3)                   // IM 0, IM 1 or IM 2
 		var prog []uint8
 		emit := func(b ...uint8) { prog = append(prog, b...) }
 		emit(0xed, []uint8{0x46, 0x56, 0x5e}[mode]) // IM 0 / IM 1 / IM 2
@@ -75,8 +75,8 @@ func genInjectMode(r *rng, out *bufio.Writer, nprog int, maxK int, irq bool) {
 		prog[callAt+1], prog[callAt+2] = uint8(sub), uint8(sub>>8)
 		v.Over = []Override{
 			{base, prog},
-			{0x0038, []uint8{0xf5, 0xaf, 0xf1, 0xfb, 0xed, 0x4d}},       // PUSH AF ; XOR A ; POP AF ; EI ; RETI
-			{0x0066, []uint8{0xf5, 0x3e, 0x55, 0xf1, 0xed, 0x45}},       // PUSH AF ; LD A,55h ; POP AF ; RETN
+			{0x0038, []uint8{0xf5, 0xaf, 0xf1, 0xfb, 0xed, 0x4d}},             // PUSH AF ; XOR A ; POP AF ; EI ; RETI
+			{0x0066, []uint8{0xf5, 0x3e, 0x55, 0xf1, 0xed, 0x45}},             // PUSH AF ; LD A,55h ; POP AF ; RETN
 			{0x0080, []uint8{0xe5, 0x21, 0x34, 0x12, 0xe1, 0xfb, 0xed, 0x4d}}, // PUSH HL ; LD HL,1234h ; POP HL ; EI ; RETI
 			{0x2000, []uint8{0x80, 0x00}}, {0x2012, []uint8{0x80, 0x00}}, {0x20fe, []uint8{0x80, 0x00}},
 		}
